@@ -5,7 +5,7 @@ W=$1; TAG=$2; shift 2
 PROPS=${@:-C01 C02 C03 C04 C05 C06 C07 C08 C09 C10 C11 C12 C13 C14 C15 C16 C17 C18 C19 C20}
 export VERIF_BUILD=/tmp/vbuild_$TAG VERIF_REPO=$W
 mkdir -p $VERIF_BUILD
-cd /verif
+V=${VERIF_HOME:-/verif}; cd $V
 for c in $PROPS; do
   s=$(date +%s); ./check $c --tier quick > $VERIF_BUILD/$c.log 2>&1; rc=$?
   echo "$TAG $c rc=$rc t=$(( $(date +%s)-s )) $(grep -E 'VIOLATION' $VERIF_BUILD/$c.log | sed 's/replay=[^ ]*//' | sort | uniq -c | tr '\n' ';')"
